@@ -9,7 +9,8 @@ Stage C  correspondence, for every class with a descriptor: the real unpack()/pa
          descriptor's attribute table (floats bit-exact).
 Stage D  oracle = the property itself on the real code, for ALL classes (descriptor or not): tools/c01_oracle.py
          (every pack()/unpack() call form, MessageHeader.pack(payload=) for every class; integer fields enumerated as
-         bit sets at the offsets int_fields() reads from the descriptors).
+         bit sets at the offsets int_fields() reads from the descriptors; re-used objects: unpack into an object that
+         has parsed / refused other encodings before must equal a new object, chains and shape-class pairs).
          + the float-codec hypotheses of the theorems tested directly on the implementation (all 65 536 raw values
          of every 16-bit scaled field, Timestamp on a grid, three cycles).
 """
@@ -255,6 +256,7 @@ def correspond(ctx, layouts):
                 meta.append((name, off, buf, b0))
     outs = ctx.driver(lines)
     skipped = {}
+    receivers = {}
     for (name, off, buf, b0), line, ans in zip(meta, lines, outs):
         subj = subs[name]
         items = layouts[name]
@@ -264,6 +266,14 @@ def correspond(ctx, layouts):
             impl_ok = True
         except Exception as e:
             impl_ok, err = False, type(e).__name__
+        # the model is a function of the bytes alone: ONE long-lived object per class is taken through every request of
+        # the class as well (refused ones included) and must show the model's value after each parse, like a new object
+        if name not in receivers:
+            receivers[name] = subj.receiver()
+        try:
+            o1r, nr = subj.unpack_with(receivers[name], buf, off)
+        except Exception as e:
+            o1r, nr = None, type(e).__name__
         ctx.count('corr_' + ('parsed' if impl_ok else 'rejected'))
         ctx.case(line, nontrivial=impl_ok)
         if ans in ('bad-args', 'bad-op'):
@@ -300,6 +310,21 @@ def correspond(ctx, layouts):
             ctx.disagree('%s: attributes differ (offset %d): %s' % (name, off, '; '.join(diffs[:4])), replay)
             continue
         ctx.cov['traces_validated_against_impl'] += 1
+        if why not in ('revert-to-default-flag', 'event-description-sync-unescape'):
+            diffs = []
+            if o1r is None or nr != m_n:
+                diffs.append('unpack -> %s, model consumes %d' % (nr, m_n))
+            else:
+                try:
+                    cmp_items(items, m_val, o1r, diffs, name, {})
+                except Exception as e:
+                    diffs.append('attribute walk failed: %s: %s' % (type(e).__name__, e))
+            ctx.count('corr_reused_receiver')
+            if diffs:
+                ctx.disagree('%s: a re-used object differs from the model after unpack (offset %d; a new object agrees): %s' % (
+                    name, off, '; '.join(diffs[:4])), replay)
+                receivers.pop(name)
+                continue
         if why:
             skipped[why] = skipped.get(why, 0) + 1
             continue
@@ -596,6 +621,7 @@ def oracle(ctx, pool, budget):
     ctx.cov['oracle_subjects'] = len(names)
     tot = {'cases': 0, 'parsed': 0, 'unparsed': 0, 'refused': 0, 'ok': 0, 'normalised': 0}
     per = {}
+    reuse = {}
     ft = field_table(getattr(ctx, '_c01_layouts', None))
     ctx.cov['oracle_integer_fields_enumerated'] = sum(len(v) for v in ft.values())
     for r in pool.imap_unordered(O.run_subject, [(n, ctx.seed, ctx.thorough, budget, ft.get(n)) for n in names]):
@@ -609,9 +635,13 @@ def oracle(ctx, pool, budget):
         ctx.cov['evaluations'] += r['unparsed']
         for sig, desc, rep in r['violations']:
             ctx.violation(sig, desc, rep)
+        for k, v in (r.get('reuse') or {}).items():
+            reuse[k] = reuse.get(k, 0) + v
         if r['sample'] and len(ctx.cov['samples']) < 6:
             ctx.sample(r['sample'])
     for k, v in tot.items():
+        ctx.count('oracle_' + k, v)
+    for k, v in reuse.items():
         ctx.count('oracle_' + k, v)
     ctx.cov['oracle_per_subject(cases,parsed,ok,refused)'] = per
     never = sorted(n for n, v in per.items() if v[1] == 0)
@@ -660,7 +690,14 @@ def check(ctx):
         'unpack from bytes / bytearray / memoryview / keywords / message_version= (same value and count, input unmodified); '
         'MessageHeader.pack(payload=p) = header + payload in one call in the same forms, for parsed headers with payloads of several '
         'lengths and for the serialisation of every registered payload class, read back with validate_sync / validate_crc and the class\'s '
-        'unpack at off+24. len(pack(o1)) <= bytes consumed by the parse that gave o1. A case is non-trivial if '
+        'unpack at off+24. len(pack(o1)) <= bytes consumed by the parse that gave o1. Object re-use, every subject: (chains) one '
+        'object unpacks a shuffled sequence of ALL these encodings plus truncated prefixes of valid ones, parsed / packed / sized after '
+        'every step, refused unpacks staying in the sequence, and after every step equals a new object that parsed only the last one '
+        '(consumed, field values, value classes, pack() bytes or refusal, calcsize()); (pairs) encodings grouped by shape (members None / '
+        'empty / of which class, variable-part length classes, known vs unknown enumeration values, refused with which exception, pack() '
+        'refused) and by the values of their enumeration / flag / small-integer fields, ordered pairs of groups (all while the budget '
+        'allows): o.unpack(A); o.unpack(B) = new.unpack(B), A also through MessageHeader.unpack(validate_sync, validate_crc); differences '
+        'minimised to the shortest history that reproduces them. A case is non-trivial if '
         'b0 parses; distinct = distinct (subject, b0). correspondence: the same generator, impl vs Lean model via `layrt`.')
     ctx.assumptions += [
         'float-arithmetic value codecs (Timestamp sec+ns <-> float seconds, FixedPointAdapter, sentinel scalings in solution.py) are '
@@ -702,6 +739,14 @@ def replay(ctx, path):
     if r.get('kind') == 'adapter':
         print('FixedPointAdapter input: %r' % r)
         return 1
+    if r.get('kind') == 'reuse':
+        subj = O.subject_by_name(r['subject'])
+        fresh, got, d = O.reuse_replay(subj, r)
+        print('new object   : %s' % {k: (v if k != 'pack' or v[0] != 'ok' else v[1].hex()) for k, v in fresh.items()})
+        print('re-used object: %s' % {k: (v if k != 'pack' or v[0] != 'ok' else v[1].hex()) for k, v in got.items()})
+        if d:
+            ctx.violation(O.signature(subj.name, 'stale-state', d[0]), d[1], r)
+        return fv.finish(ctx, 'proof', None)
     subj = O.subject_by_name(r['subject'])
     res = O.roundtrip(subj, bytes.fromhex(r['b0']), tuple(r.get('offsets') or (0,)), O.random.Random(1))
     for v in res[1]:
